@@ -1,2 +1,48 @@
+//! C08: descriptive statistics equal their textbook definitions.
 use crate::*;
-pub fn run(_r: &mut Rng, _o: &mut Fails) {}
+use compute::statistics::*;
+
+pub fn run(rng: &mut Rng, out: &mut Fails) {
+    for case in 0..200 {
+        let n = 2 + rng.below(12);
+        let off = match case % 4 { 0 => 0.0, 1 => 1e6, 2 => -3e8, _ => 1e8 };
+        let x: Vec<f64> = (0..n).map(|_| off + rng.int(-9, 9)).collect();
+        let y: Vec<f64> = (0..n).map(|_| -off * 3. + rng.int(-9, 9)).collect();
+        let inp = format!("x={:?} y={:?}", x, y);
+        // exact rational reference on the integer residues
+        let xr: Vec<f64> = x.iter().map(|v| v - off).collect();
+        let yr: Vec<f64> = y.iter().map(|v| v + off * 3.).collect();
+        let nf = n as f64;
+        let mx = xr.iter().sum::<f64>() / nf; let my = yr.iter().sum::<f64>() / nf;
+        let sxx: f64 = xr.iter().map(|v| (v - mx) * (v - mx)).sum();
+        let sxy: f64 = xr.iter().zip(&yr).map(|(a, b)| (a - mx) * (b - my)).sum();
+        let tol = if off == 0. { 1e-12 } else { 1e-6 };
+        let chk = |out: &mut Fails, f: &str, clause: &str, got: f64, want: f64, tol: f64| if !close(got, want, tol) { fail(out, f, clause, inp.clone(), format!("{}", got), format!("{}", want)); };
+        chk(out, "mean", "C08.mean", mean(&x), off + mx, 1e-12);
+        chk(out, "welford_mean", "C08.welford_mean", welford_mean(&x), off + mx, 1e-12);
+        chk(out, "var", "C08.var", var(&x), sxx / nf, tol);
+        chk(out, "sample_var", "C08.sample_var", sample_var(&x), sxx / (nf - 1.), tol);
+        chk(out, "std", "C08.std", std(&x), (sxx / nf).sqrt(), tol);
+        chk(out, "sample_std", "C08.sample_std", sample_std(&x), (sxx / (nf - 1.)).sqrt(), tol);
+        chk(out, "covariance", "C08.cov.twopass", covariance(&x, &y), sxy / nf, tol);
+        chk(out, "sample_covariance", "C08.cov.sample", sample_covariance(&x, &y), sxy / (nf - 1.), tol);
+        chk(out, "sample_covariance_onepass", "C08.cov.onepass", sample_covariance_onepass(&x, &y), sxy / (nf - 1.), if off == 0. { 1e-12 } else { 1e-5 });
+        chk(out, "sample_covariance_online", "C08.cov.online", sample_covariance_online(&x, &y), sxy / (nf - 1.), tol);
+        chk(out, "sample_covariance", "C08.cov.symmetric", sample_covariance(&y, &x), sxy / (nf - 1.), tol);
+        // extrema with first-occurrence indices (ties, signed zeros)
+        let d: Vec<f64> = (0..n).map(|i| match case % 3 { 0 => rng.int(-3, 3), 1 => [0.0, -0.0, 2.0, 2.0, -1.0, -1.0][i % 6], _ => (i % 3) as f64 }).collect();
+        let mn = d.iter().cloned().fold(f64::INFINITY, f64::min); let mxv = d.iter().cloned().fold(f64::NEG_INFINITY, f64::max);
+        let amin = d.iter().position(|v| *v == mn).unwrap(); let amax = d.iter().position(|v| *v == mxv).unwrap();
+        let dinp = format!("data={:?}", d);
+        if min(&d) != mn { fail(out, "min", "C08.min", dinp.clone(), format!("{}", min(&d)), format!("{}", mn)); }
+        if max(&d) != mxv { fail(out, "max", "C08.max", dinp.clone(), format!("{}", max(&d)), format!("{}", mxv)); }
+        if argmin(&d) != amin { fail(out, "argmin", "C08.argmin.first", dinp.clone(), format!("{}", argmin(&d)), format!("{}", amin)); }
+        if argmax(&d) != amax { fail(out, "argmax", "C08.argmax.first", dinp.clone(), format!("{}", argmax(&d)), format!("{}", amax)); }
+        // histogram bin centres, uniform and non-uniform
+        let mut e = vec![rng.int(-5, 5)]; for _ in 0..n { let last = *e.last().unwrap(); e.push(last + 0.5 * (1 + rng.below(if case % 2 == 0 { 1 } else { 6 })) as f64); }
+        let want: Vec<f64> = (0..e.len() - 1).map(|i| (e[i] + e[i + 1]) / 2.).collect();
+        let got = hist_bin_centers(&e);
+        if got.v.len() != want.len() || got.v.iter().zip(&want).any(|(a, b)| !close(*a, *b, 1e-13)) { fail(out, "hist_bin_centers", "C08.hist", format!("edges={:?}", e), format!("{:?}", got.v), format!("{:?}", want)); }
+        if out.len() > 6 { return; }
+    }
+}
